@@ -666,18 +666,30 @@ Qed.
 Definition add_dir_body (c : ctx) (f : bytes) : M unit :=
   w' <- getw ;; if ignored w' (x_pats c) f then ret tt else add_file f.
 
-(* [cmd_add] is literally built from [add_dir_body] *)
+(* what [cmd_add] does for an argument that is not on disk (any more): a tracked path is
+   unstaged; a tracked directory has every tracked path beneath it unstaged; anything else
+   cannot occur after the validation *)
+Definition add_unstage_one (q : bytes) : M unit :=
+  w' <- getw ;; i <- of_opt (idx_delete (idx_of w') q) ;; emit (ESetIndex i).
+
+Definition add_missing_body (w : world) (a : bytes) : M unit :=
+  if tracked w a then
+    i <- of_opt (idx_delete (idx_of w) a) ;; emit (ESetIndex i)
+  else if is_dir (idx_of w) a then
+    iterM add_unstage_one (map e_path (entries_by_dir (idx_of w) a))
+  else fail.
+
+(* [cmd_add] is literally built from [add_dir_body] and [add_missing_body] *)
 Lemma cmd_add_uses_body c args :
   cmd_add c args =
   (guard (negb (is_nil args)) ;;;
    (w <- getw ;;
-    guard (forallb (fun a => exists_on_disk w a || tracked w a) args)) ;;;
+    guard (forallb (fun a => exists_on_disk w a || tracked w a || is_dir (idx_of w) a) args)) ;;;
    iterM (fun a =>
      w <- getw ;;
      if ignored w (x_pats c) a then ret tt
      else match wt_stat w a with
-          | SNone | SNotDir =>
-              i <- of_opt (idx_delete (idx_of w) a) ;; emit (ESetIndex i)
+          | SNone | SNotDir => add_missing_body w a
           | SDir => iterM (add_dir_body c) (files_under w a)
           | SFile => add_file a
           end) args ;;;
@@ -709,7 +721,7 @@ Theorem add_arg_ignored : forall c w tr fl a,
   (w0 <- getw ;;
    if ignored w0 (x_pats c) a then ret tt
    else match wt_stat w0 a with
-        | SNone | SNotDir => i <- of_opt (idx_delete (idx_of w0) a) ;; emit (ESetIndex i)
+        | SNone | SNotDir => add_missing_body w0 a
         | SDir => iterM (add_dir_body c) (files_under w0 a)
         | SFile => add_file a
         end) (mkMS w tr fl) = (Ok tt, mkMS w tr fl).
